@@ -3,7 +3,7 @@ import base64
 
 from hypothesis import strategies as st
 
-from vlib.e2e import client, httpref, origin as originmod
+from vlib.e2e import client, dnsstub, httpref, origin as originmod
 from vlib.e2e.env import ProxyEnv
 from vlib.e2e_runner import Result
 
@@ -33,27 +33,45 @@ def strategy(tp):
         "client_version": st.sampled_from(["1.1", "1.1", "1.0"]),
         "client_close": st.booleans(),
         "second": st.booleans(),
+        # the response under test is the one of a *second* forwarding attempt: the host name resolves to two addresses and the
+        # first one answers with a complete re-forwardable error, which Squid drops before it tries the next address
+        "retry_first": st.sampled_from([None, None, None, 502, 504]),
     })
 
 
 def setup(ctx):
-    return ProxyEnv(ctx, conf="maximum_object_size 8 MB\nread_timeout 20 seconds\n", cache_mem="64 MB")
+    w = ctx.worker
+    dns_addr = "127.0.54.%d" % (10 + w)
+    dns = dnsstub.DnsStub(dns_addr)
+    env = ProxyEnv(ctx, conf="maximum_object_size 8 MB\nread_timeout 20 seconds\n", cache_mem="64 MB", dns=dns_addr)
+    env.dns = dns
+    env.front = None
+    try:
+        # same port on another loopback address: the destination Squid tries first when "retry_first" is set
+        env.front = originmod.Origin(env.clock, host="127.0.3.%d" % (10 + w), port=env.origin.port)
+    except OSError:
+        pass
+    return env
 
 
 def teardown(env):
+    env.dns.stop()
+    if env.front:
+        env.front.stop()
     env.close()
 
 
-def _fetch(env, path, sc, r, which):
+def _fetch(env, path, sc, r, which, hostport=None):
     c = client.Conn(env.port, timeout=15)
     try:
         ver = "HTTP/" + sc["client_version"]
-        hdrs = "Host: 127.0.0.1:%d\r\n" % env.origin.port
+        hdrs = "Host: %s\r\n" % (hostport or "127.0.0.1:%d" % env.origin.port)
         if sc["client_close"]:
             hdrs += "Connection: close\r\n"
         elif sc["client_version"] == "1.0":
             hdrs += "Connection: keep-alive\r\n"
-        c.send(("GET %s %s\r\n%s\r\n" % (env.url(path), ver, hdrs)).encode())
+        url = ("http://%s%s" % (hostport, path)) if hostport else env.url(path)
+        c.send(("GET %s %s\r\n%s\r\n" % (url, ver, hdrs)).encode())
         m = c.read_response(b"GET", timeout=15)
         return m
     finally:
@@ -138,15 +156,31 @@ def execute(env, sc):
                 r.label("origin-rst")
             r.label("origin-abort-in-head" if k < len(head) else "origin-abort-in-body")
     env.origin.script(path, beh)
+    hostport = None
+    if sc.get("retry_first") and env.front:
+        name = "retry-%s.c01.test" % ns.replace("_", "-")
+        env.dns.set(name, [env.front.host, "127.0.0.1"])
+        hostport = "%s:%d" % (name, env.origin.port)
+        env.front.script(path, {"status": sc["retry_first"], "reason": "Try The Next One", "framing": "length", "body_b64": base64.b64encode(b"front says no\n").decode(),
+                                "headers": [["Cache-Control", "no-store"], ["X-Tag", "front-" + ns]]})
+        r.label("retry-first-%d" % sc["retry_first"])
     split_in_head = bool(sc["segments"]) and sc["segments"][0] < len(head)
     if sc["body_len"] > 4096 or split_in_head or origin_cut:
         r.nontrivial = True
     r.label("origin-" + framing)
-    m = _fetch(env, path, sc, r, "first")
+    m = _fetch(env, path, sc, r, "first", hostport)
+    if hostport and env.origin.arrival_count(path) == 0:
+        # Squid did not go on to the second address (it may relay the first destination's error): nothing of the
+        # response under test reached the proxy, so there is nothing to judge
+        r.label("retry-first-not-reforwarded")
+        env.health(r)
+        return r
+    if hostport:
+        r.label("retry-first-reforwarded")
     _judge(env, sc, m, body, origin_cut, r, "first request")
     if sc["second"] and not r.violations and not r.inconclusive:
         arrivals_before = env.origin.arrival_count(path)
-        m2 = _fetch(env, path, sc, r, "second")
+        m2 = _fetch(env, path, sc, r, "second", hostport)
         hit = env.origin.arrival_count(path) == arrivals_before
         r.label("second-hit" if hit else "second-miss")
         r.sub_evaluations += 1
